@@ -64,7 +64,10 @@ pub fn run(a: &Args) -> i32 {
     // ---- part A + B: walker ----
     let mut items = Vec::new();
     for sd in TREE_SEEDS {
-        let d = depth_for(sd, &a.tier);
+        let mut d = depth_for(sd, &a.tier);
+        if sd.name == "promo-vs-rooks" {
+            d = d.min(4); // walked without merging here
+        }
         let root = Pos::from_fen(sd.fen).unwrap();
         let split = if d >= 3 { 2 } else if d == 2 { 1 } else { 0 };
         items.extend(items_for(sd.name, sd.fen, &root, d, split));
